@@ -141,6 +141,7 @@ def plan(tier, seed):
         (corner("awk", prefix=A.GL, qubits=3, qid_alias={"q0": 2, "q1": 0, "q2": 1}, name="awk-int-ids-out-of-order"), rt, 3),
         (corner("awk", prefix=[("declare", "g", "rydberg_global")], name="awk-eom"), A.eom_phase(), 4),
         (corner("real", prefix=[("declare", "g", "rydberg_global")], name="real-eom", eom=dict(mod_bandwidth=20)), A.eom_phase(), 4),
+        (corner("unit8", prefix=[("declare", "g", "rydberg_global")], name="eom-slower-than-channel", bw=30, eom=dict(mod_bandwidth=8)), A.eom_phase(), 4),
     ]
     if tier == "quick":
         k = seed % 12
